@@ -68,6 +68,9 @@ CLAIMED = {
     "C18": (MP, "exploration", "token scan of generated expansions + rustc's forbid(unsafe_code) on generated programs + grammar-generated negative/twin compile corpus",
             "(a) every expansion produced by engine M (hundreds of thousands) is scanned for `unsafe`, and every positive program of engine P carries #![forbid(unsafe_code)]; (b) 447 negative programs generated from the holder x structural-change grammar and the alias / &mut-entity / smuggling / nested-change / Send / Sync families must be rejected by rustc while each sound twin compiles.",
             "(a) is universally quantified over generator output: sampling + rustc's lint on every sampled program is what this family of technique offers; (b) is a finite grammar, enumerated completely", "DESIGN.md 3/C18"),
+    "C19": (H, "exploration", "configuration matrix (8 feature sets x debug/release) x model-based histories, differential trace comparison, feature-delta compile programs",
+            "The harness is rebuilt under all 16 configurations; the same seeded histories must pass every oracle everywhere (incl. C03's forged-handle oracle and, under wrapping_version, boundary-crossing histories), the trace of everything the oracle is lenient about must be identical across builds, and fixed client programs check the documented deltas (event API iff events, 17/32-component archetypes iff 32_components).",
+            "engine P's generated positive programs are rebuilt under the feature sets only in the thorough tier", "DESIGN.md 3/C19"),
 }
 
 
@@ -95,7 +98,7 @@ def main():
                 "technique": tech,
             })
         else:
-            not_applicable.append({"property_id": pid, "reason": "check not built yet (work in progress; see DESIGN.md section 10)"})
+            not_applicable.append({"property_id": pid, "reason": "not claimed (see DESIGN.md section 8)"})
     manifest = {
         "version": 1,
         "setup_cmd": "./setup.sh",
